@@ -831,12 +831,19 @@ func (in *esInterp) assume(cond ast.Expr, truth bool, st esState) []esState {
 				}
 			}
 		case token.LEQ, token.LSS, token.GTR, token.GEQ:
-			// len(code) + K  op  maxStack
-			if k, c, ok := in.lenCodePlus(x.X); ok {
-				if tv, ok2 := in.info.Types[x.Y]; ok2 && tv.Value != nil {
+			// len(code) + K  op  maxStack, or mirrored: maxStack  op'  len(code) + K
+			lhs, rhs, cmpOp := x.X, x.Y, x.Op
+			if _, _, ok := in.lenCodePlus(lhs); !ok {
+				if _, _, ok := in.lenCodePlus(rhs); ok {
+					lhs, rhs = rhs, lhs
+					cmpOp = map[token.Token]token.Token{token.LEQ: token.GEQ, token.LSS: token.GTR, token.GTR: token.LSS, token.GEQ: token.LEQ}[cmpOp]
+				}
+			}
+			if k, c, ok := in.lenCodePlus(lhs); ok {
+				if tv, ok2 := in.info.Types[rhs]; ok2 && tv.Value != nil {
 					if m, ok3 := constant.Int64Val(tv.Value); ok3 {
 						_ = c
-						op := x.Op
+						op := cmpOp
 						if !truth {
 							op = map[token.Token]token.Token{token.LEQ: token.GTR, token.LSS: token.GEQ, token.GTR: token.LEQ, token.GEQ: token.LSS}[op]
 						}
@@ -1017,10 +1024,14 @@ func checkFlexGuards(w *World, r *Report) {
 				collect(x.X, f)
 				collect(x.Y, f)
 			case token.EQL:
-				if tv, ok := pkg.TypesInfo.Types[x.Y]; ok && tv.Value != nil && constant.Sign(tv.Value) == 0 {
-					m := map[[2]int]int{}
-					if sumTerms(x.X, m, 0) {
-						f.sums = append(f.sums, m)
+				// sum == 0, or written the other way round
+				for _, pair := range [][2]ast.Expr{{x.X, x.Y}, {x.Y, x.X}} {
+					if tv, ok := pkg.TypesInfo.Types[pair[1]]; ok && tv.Value != nil && constant.Sign(tv.Value) == 0 {
+						m := map[[2]int]int{}
+						if sumTerms(pair[0], m, 0) {
+							f.sums = append(f.sums, m)
+						}
+						break
 					}
 				}
 			}
@@ -1196,10 +1207,14 @@ func checkWidthPrefix(w *World, r *Report) {
 	}
 	guardOK := false
 	for _, g := range guardsOf(enc.Block()) {
-		if cmp, ok := g.cond.(*ssa.BinOp); ok && isWidth(cmp.X) {
-			if cmp.Op == token.NEQ && g.then && cmp.Y == ssa.Value(def) || cmp.Op == token.EQL && !g.then && cmp.Y == ssa.Value(def) {
+		if cmp, ok := g.cond.(*ssa.BinOp); ok && (isWidth(cmp.X) || isWidth(cmp.Y)) {
+			other := cmp.Y
+			if !isWidth(cmp.X) {
+				other = cmp.X
+			}
+			if cmp.Op == token.NEQ && g.then && other == ssa.Value(def) || cmp.Op == token.EQL && !g.then && other == ssa.Value(def) {
 				guardOK = true
-			} else if cmp.Y == ssa.Value(nom) {
+			} else if other == ssa.Value(nom) {
 				problems = append(problems, "the presence test compares the width with nominalWidth instead of defaultWidth")
 			}
 		}
@@ -1557,6 +1572,15 @@ func (in *osInterp) assume(cond ast.Expr, truth bool, st *osState) []*osState {
 				want := !strings.Contains(s, "> maxStack")
 				if x.Op == token.LSS || x.Op == token.LEQ || x.Op == token.EQL {
 					want = true
+				}
+				// orientation: "room" means (what is used) < or <= (the limit), whichever side the limit is written on
+				isLimit := func(e ast.Expr) bool {
+					t := types.ExprString(e)
+					return strings.Contains(t, "maxStack") || strings.Contains(t, "len(cmds)")
+				}
+				if x.Op != token.EQL && x.Op != token.NEQ && isLimit(x.X) != isLimit(x.Y) {
+					less := x.Op == token.LSS || x.Op == token.LEQ
+					want = less == isLimit(x.Y)
 				}
 				if want != truth {
 					return nil
